@@ -351,8 +351,9 @@ CHECK_DEADLOCK FALSE
             b = core.outcome(c2.encrypt_metadata, cl.metadata, pub)
             ev.append({"op": "metafit", "r": "ok" if b[0] == "ok" else str(b[1]), "len": ln, "k": kb, "blob": len(b[1]) if b[0] == "ok" else 0, "names": [u, c, p]})
             ctx.count_distinct(("names", u, c, p, kb))
-    for _ in range(8 if q else 60):
-        s, j = rng.choice([0, 1, 1000, 60000, 999999]), rng.choice([0, 1, 20, 50, 99, 100])
+    # small and odd sleep times next to the usual ones: with them the width of the band is not a whole number of milliseconds
+    grid = [(s_, j_) for s_ in (1, 3, 7, 13, 101) for j_ in (1, 33, 50, 67, 99)]
+    for s, j in grid + [(rng.choice([0, 1, 1000, 60000, 999999]), rng.choice([0, 1, 20, 50, 99, 100])) for _ in range(8 if q else 60)]:
         cl, o = setup(128, beacon_id=2, user="u", computer="c", process="p", sleeptime=s, jitter=j)
         if o[0] != "ok":
             continue
